@@ -345,6 +345,8 @@ def run_c13(res, tier):
     det.run_iter_order(res, ast)
     det.run_exec_freeze(res, ast)
     sel.run_sel(res, ast, rules=("SEL-COVER",))
+    import jit
+    jit.run_jit_rules(res, ast, ["MC-ADDR"])
     import mirrules
     from mir import load_facts
     fx = load_facts()
